@@ -8,6 +8,7 @@
 package transx
 
 import (
+	"bytes"
 	"crypto/sha1"
 	"encoding/hex"
 	"fmt"
@@ -133,8 +134,26 @@ func Enc(n *Node) string {
 	return b.String()
 }
 
+// EncData renders file contents: hex, or "*<n>x<hh>" for n > 64 copies of one
+// byte (the large files of the copy-preemption cases).
+func EncData(data []byte) string {
+	if len(data) > 64 {
+		same := true
+		for _, b := range data {
+			if b != data[0] {
+				same = false
+				break
+			}
+		}
+		if same {
+			return "*" + strconv.Itoa(len(data)) + "x" + hx.Hex(data[:1])
+		}
+	}
+	return hx.Hex(data)
+}
+
 func fileBody(perm uint32, mtime, ino int, data []byte) string {
-	return strconv.FormatUint(uint64(perm), 8) + "/" + strconv.Itoa(mtime) + "/" + strconv.Itoa(ino) + "/" + hx.Hex(data)
+	return strconv.FormatUint(uint64(perm), 8) + "/" + strconv.Itoa(mtime) + "/" + strconv.Itoa(ino) + "/" + EncData(data)
 }
 
 func enc(b *strings.Builder, n *Node) {
@@ -182,7 +201,7 @@ func (p *nodeParser) span(ok func(c byte) bool) string {
 func isOct(c byte) bool   { return c >= '0' && c <= '7' }
 func isDigit(c byte) bool { return c >= '0' && c <= '9' }
 func isHexDash(c byte) bool {
-	return c >= '0' && c <= '9' || c >= 'a' && c <= 'f' || c == '-'
+	return c >= '0' && c <= '9' || c >= 'a' && c <= 'f' || c == '-' || c == '*' || c == 'x'
 }
 func isText(c byte) bool {
 	return c >= 'a' && c <= 'z' || c >= 'A' && c <= 'Z' || c >= '0' && c <= '9' || c == '.' || c == '_' || c == '-' || c == '%'
@@ -191,6 +210,18 @@ func isText(c byte) bool {
 func unhex(s string) ([]byte, error) {
 	if s == "-" {
 		return nil, nil
+	}
+	if strings.HasPrefix(s, "*") {
+		p := strings.Split(s[1:], "x")
+		if len(p) != 2 {
+			return nil, fmt.Errorf("bad data %q", s)
+		}
+		n, err := strconv.Atoi(p[0])
+		b, err2 := hex.DecodeString(p[1])
+		if err != nil || err2 != nil || len(b) != 1 {
+			return nil, fmt.Errorf("bad data %q", s)
+		}
+		return bytes.Repeat(b, n), nil
 	}
 	return hex.DecodeString(s)
 }
